@@ -273,6 +273,11 @@ def gen_layer_cfg(rng, D, equivariant_domain=True, allow_stride=False, group="B"
 
     for _ in range(100):
         M = int([3, 3, 3, 2, 5, 1][int(rng.integers(6))]) if D == 2 else int([3, 3, 2, 1][int(rng.integers(4))])
+        # long-reach stratum (every sixth case when a stratum is given): odd filter, no image dilation, wrap padding, dilation 3-4
+        # on a 2-4 pixel image, so that the filter reach exceeds the extent on a toroidal axis
+        forced_long = stratum is not None and stratum % 6 == 5
+        if forced_long:
+            M = 3 if (D == 3 or rng.integers(0, 2)) else 5
         kmax_t = 2 if D == 2 else 1
         if M == 5:
             kmax_t = 1
@@ -295,19 +300,21 @@ def gen_layer_cfg(rng, D, equivariant_domain=True, allow_stride=False, group="B"
         bias = ["auto", "mean", "scalar", True, False][int(rng.integers(5))]
         even = M % 2 == 0
         lhs = None
-        if rng.integers(0, 4) == 0:
+        if rng.integers(0, 4) == 0 and not forced_long:
             lhs = [2] * D
         pads = ["VALID", "explicit"] if even else ([None, "TORUS", "SAME", "VALID", "explicit", "explicit"] if lhs is not None else [None, "TORUS", "SAME", "VALID", "explicit", None, "TORUS", "SAME"])
         pk = pads[int(rng.integers(len(pads)))]
         if stratum is not None and not even:
             want_pk = [None, "TORUS", "SAME", "VALID", "explicit", None, "TORUS", None][(stratum // 3) % 8]
+            if forced_long:
+                want_pk = [None, "TORUS"][(stratum // 6) % 2]
             pk = want_pk if want_pk in pads else pk
         padding = pk
         if pk == "explicit":
             q = int(rng.integers(0, 3)) if lhs is None else int(rng.integers(1, 3))
             padding = [[q, q]] * D
         rhs = int(rng.integers(1, 3))
-        long_reach = rng.integers(0, 5) == 0  # filter reach ((M-1)//2)*dilation beyond the image extent (small images under a DilResNet)
+        long_reach = rng.integers(0, 5) == 0 or forced_long  # filter reach ((M-1)//2)*dilation beyond the image extent (small images under a DilResNet)
         if long_reach:
             rhs = int(rng.integers(3, 5))
         rhs = rhs if rng.integers(0, 2) else [rhs] * D
@@ -318,6 +325,8 @@ def gen_layer_cfg(rng, D, equivariant_domain=True, allow_stride=False, group="B"
         torus = [True] * D if tor_kind == "all" else ([False] * D if tor_kind == "none" else [bool(v) for v in rng.integers(0, 2, size=D)])
         if stratum is not None:
             tor_kind = ["all", "none", "mixed"][stratum % 3]
+            if forced_long:
+                tor_kind = ["all", "mixed"][(stratum // 12) % 2]
             if tor_kind == "mixed":  # genuinely mixed: at least one toroidal and one non-toroidal axis
                 torus = [bool(v) for v in rng.permutation([True, False] + [bool(rng.integers(0, 2)) for _ in range(D - 2)])]
             else:
